@@ -52,6 +52,18 @@ def build(case):
         g = G.ControlledGate(t, len(case["cs"]), list(case["cs"]))
         g.set_control(qs[:len(case["cs"])])
         return g
+    if k == "mplx-herm":
+        # targets of ONE class whose answer depends on the instance: user-defined / controlled gates, Hermitian and not, in a given order
+        qs = c["qubits"]
+        H2 = {"X": np.array([[0, 1], [1, 0]], dtype=complex), "Z": np.diag([1, -1]).astype(complex), "S": np.diag([1, 1j]),
+              "Y": np.array([[0, -1j], [1j, 0]]), "T": np.diag([1, np.exp(0.25j * np.pi)]), "I": np.identity(2, dtype=complex)}
+        if case["tcls"] == "general":
+            ts = [G.GeneralGate(H2[n], 1).on(qs[7]) for n in case["names"]]
+        else:
+            ts = [G.ControlledGate(G.GeneralGate(H2[n], 1).on(qs[7]), 1).set_control(qs[6]) for n in case["names"]]
+        g = G.MultiplexedGate(ts, case["nc"])
+        g.set_control(qs[:case["nc"]])
+        return g
     if k == "mplx":
         qs = c["qubits"]
         rng = random.Random(case["seed"])
@@ -280,6 +292,9 @@ def gen_cases(tier, rng):
             if nc == 3 and w == 2 and not thorough:
                 continue
             yield {"kind": "mplx", "nc": nc, "w": w, "seed": rng.randrange(10 ** 9)}
+    for tcls in ("general", "controlled"):
+        for names in (["X", "Z"], ["X", "S"], ["S", "X"], ["Z", "Y", "X", "I"], ["X", "Z", "Y", "T"], ["X", "S", "Z", "Z"], ["T", "X", "X", "X"]):
+            yield {"kind": "mplx-herm", "tcls": tcls, "names": names, "nc": 1 if len(names) == 2 else 2}
     # random nested trees
     n = 3000 if thorough else 400
     for i in range(n):
